@@ -12,6 +12,7 @@ mod run;
 mod shrink;
 mod subjects;
 mod world;
+mod zst;
 
 use gen::Workload;
 use ops::*;
@@ -264,6 +265,9 @@ impl Agg {
             }
         };
         *self.per_shape.entry(shape.to_string()).or_default() += 1;
+        if cfg.zst_children.is_some() {
+            *self.per_shape.entry("plus a pass with zero-sized futures and streams (count-only model)".to_string()).or_default() += 1;
+        }
         let mut seen_keys: Vec<(String, String, String)> = vec![];
         for v in &r.violations {
             if counts_for(prop, v, cfg.subject) {
